@@ -44,6 +44,9 @@ type Case struct {
 	// LongEnv: the client greets with a 200-character host name and sends from an address of about
 	// 270 characters, so that the trace headers the server puts in front are long.
 	LongEnv bool `json:"long_envelope,omitempty"`
+	// Hdrs is a number of additional well-formed header lines (72 bytes each): 900 of them make a
+	// header block beyond 64 KiB, so that the first empty line of the message lies that far in.
+	Hdrs int `json:"extra_headers,omitempty"`
 }
 
 var kinds = []string{"empty", "dot", "dotdot", "dottext", "text", "text", "text", "8bit", "nul", "barecr", "endcr", "crcr", "rand", "long"}
@@ -137,7 +140,7 @@ var prop = hx.Prop[Case]{
 	ID: pid, Name: "roundtrip",
 	Rule: "bodies built from 0-12 lines of classes {empty, '.', '..', '.text', ASCII text, 8-bit, NUL, bare CR inside, CR before the line " +
 		"end, CR CR, pseudo-random bytes, long 65535..200000 bytes} each ending in CRLF or bare LF, last newline optional; sent through a " +
-		"real SMTP session with conforming dot-stuffing; oracle: Source() = trace headers ++ B with canon(B) = canon(transmitted) (canon: a " +
+		"real SMTP session with conforming dot-stuffing, behind a header block of 2 lines or of 12/900/911/2000 further lines (beyond 64 KiB); oracle: Source() = trace headers ++ B with canon(B) = canon(transmitted) (canon: a " +
 		"run of CRs followed by LF is one line break), REST and web-UI source byte-equal to Source(), POP3 RETR and TOP(all lines) " +
 		"canon-equal to Source(), Size() = REST size = POP3 LIST/STAT size = len(Source()); non-trivial = body has a leading-dot line, bare " +
 		"CR/LF, 8-bit/NUL byte, a line > 64 KiB, no final newline, or is empty",
@@ -151,6 +154,7 @@ var prop = hx.Prop[Case]{
 		}
 		c.Lead = rapid.SampledFrom([]int{0, 0, 0, 0, 1, 3}).Draw(t, "lead")
 		c.LongEnv = rapid.IntRange(0, 5).Draw(t, "longenv") == 0
+		c.Hdrs = rapid.SampledFrom([]int{0, 0, 0, 0, 0, 0, 12, 900, 911, 2000}).Draw(t, "hdrs")
 		if rapid.IntRange(0, 3).Draw(t, "limited") == 0 {
 			d := rapid.SampledFrom([]int{-5000, -700, -100, -1, 0, 1, 100}).Draw(t, "limit_delta")
 			c.Limit = &d
@@ -219,7 +223,14 @@ func run(c Case) *hx.Outcome {
 	cfg := hx.DefaultCfg()
 	cfg.Backend = c.Backend
 	cfg.MaxMessageBytes = 64 << 20
-	data := append([]byte(strings.Repeat("\r\n", c.Lead)+"Subject: c02\r\nFrom: a@a.test\r\n\r\n"), body...)
+	var filler strings.Builder
+	for i := 0; i < c.Hdrs; i++ {
+		fmt.Fprintf(&filler, "X-Filler-%05d: %s\r\n", i, strings.Repeat("f", 53))
+	}
+	if c.Hdrs > 0 {
+		o.Class(fmt.Sprintf("header block of %d KiB", filler.Len()>>10))
+	}
+	data := append([]byte(strings.Repeat("\r\n", c.Lead)+"Subject: c02\r\nFrom: a@a.test\r\n"+filler.String()+"\r\n"), body...)
 	wantFrom, wantSubject := "a@a.test", "c02"
 	if c.Lead > 0 {
 		wantFrom, wantSubject = "s@a.test", "" // no header block: the envelope sender stands in
